@@ -57,7 +57,15 @@ fn member_toml(env: &Env, name: &str, features: &[String], no_std: bool) -> Stri
     if has("arbitrary") {
         deps.push_str("arbitrary = \"1\"\n");
     }
-    format!("[package]\nname = \"{name}\"\nversion = \"0.1.0\"\nedition = \"2021\"\n\n[lib]\npath = \"src/lib.rs\"\n\n[dependencies]\n{deps}")
+    // a host-side user of nutype with default features (a build script here; a proc-macro or any other
+    // build-dependency does the same): cargo builds ONE nutype_macros for the host, with the union of the
+    // features, and that copy expands #[nutype] in this no_std crate
+    let host = if no_std && name.contains("host") {
+        format!("\n[build-dependencies]\nnutype = {{ path = \"{}/nutype\" }}\n", env.repo.display())
+    } else {
+        String::new()
+    };
+    format!("[package]\nname = \"{name}\"\nversion = \"0.1.0\"\nedition = \"2021\"\n\n[lib]\npath = \"src/lib.rs\"\n\n[dependencies]\n{deps}{host}")
 }
 
 /// emit the workspace; returns crate names with their unit ids
@@ -77,6 +85,9 @@ fn emit(env: &Env, dir: &Path, prefix: &str, units: &[Unit], skip: &BTreeSet<Str
         let cdir = dir.join(&name);
         std::fs::create_dir_all(cdir.join("src")).ok();
         write_if_changed(&cdir.join("Cargo.toml"), &member_toml(env, &name, features, no_std));
+        if no_std && name.contains("host") {
+            write_if_changed(&cdir.join("build.rs"), "fn main() {}\n");
+        }
         let has = |f: &str| features.iter().any(|x| x == f);
         let mut lib = String::from("#![allow(unused, non_snake_case, non_camel_case_types, clippy::all)]\n");
         if no_std {
